@@ -38,7 +38,9 @@ static void run_case(CaseCtx& c)
     if (ps.geom == G_SHAFRANOV && 2.0 * ps.p2 > 0.8 * (1.0 - ps.p1))
         ps.p2 = rng.uniform(0.0, 0.4 * (1.0 - ps.p1));
     ps.alpha_jump = rng.uniform(0.2, 0.9) * ps.Rmax;
-    double R0     = rng.loguniform(1e-5, 0.3) * ps.Rmax;
+    // any inner radius below Rmax is admissible: thin annuli reach the regions where the boundary data of the Refined
+    // problems carry their narrow ring mode
+    double R0     = rng.coin(0.25) ? rng.uniform(0.3, 0.98) * ps.Rmax : rng.loguniform(1e-5, 0.3) * ps.Rmax;
     int npts      = atoi(c.arg("points", c.thorough() ? "1000" : "100").c_str());
     double gain   = atof(c.arg("noise_gain", "1e9").c_str());
     double jgain  = atof(c.arg("jac_noise_gain", "1e11").c_str());
